@@ -233,6 +233,13 @@ class Pipelines(Harness):
             combos += [(w, t, c) for w in (whole, split) for t in (whole, split) for c in ([0, 0], [1, 1], [0, 1]) if (w, t, c) not in combos]
         for wch, tch, wc in combos:
             out.append(dict(genome="g2", chroms=wc, chunks=wch, track_chunks=tch, what="values"))
+        # windows held in memory (any order within a chromosome), track streamed: rows come back in the order of the windows
+        out.append(dict(genome="g2", chroms=[0, 0], chunks=whole, track_chunks=split, what="values", windows_in_memory=True))
+        out.append(dict(genome="g2", chroms=[0, 1], chunks=whole, track_chunks=split, what="values", windows_in_memory=True))
+        # column means over windows of UNEQUAL width (a window cut short next to full-width ones; the widest window of every chromosome
+        # has the same width, which the streamed mean requires): streamed == in memory
+        for wch in ([[0, 2], [2, 3]],) + (([[0, 3]], [[0, 1], [1, 3]]) if tier == "thorough" else ()):
+            out.append(dict(genome="g2", chroms=[0, 0, 1], chunks=wch, track_chunks=split, what="values", mean=True))
         return out
 
     def inputs(self, skel, V):
@@ -241,14 +248,19 @@ class Pipelines(Harness):
             from checks.C09 import declare_track
             declare_track(V, [0, 1], sizes, "a")
             for i in range(len(skel["chroms"])):
-                V.int(f"st{i}", 0, 2)           # StrandEncoding code of + - .
+                V.int(f"st{i}", 0, 0 if skel.get("mean") else 2)           # StrandEncoding code of + - . (the mean skeletons use '+' only)
         prev = None
         for i, c in enumerate(skel["chroms"]):
             s = V.int(f"s{i}", 0, sizes[c] - 1); e = V.int(f"e{i}", 1, sizes[c])
             V.assume(s.t < e.t)
-            if prev is not None and skel["chroms"][prev] == c:
+            if skel.get("mean"):
+                V.assume(e.t - s.t <= 2)
+            if prev is not None and skel["chroms"][prev] == c and not skel.get("windows_in_memory"):
                 V.assume(s.t >= V.vars[f"s{prev}"].t)
             prev = i
+        if skel.get("mean"):
+            for c in set(skel["chroms"]):
+                V.assume(z_or([V.vars[f"e{i}"].t - V.vars[f"s{i}"].t == 2 for i, ci in enumerate(skel["chroms"]) if ci == c]))
 
     def call(self, skel, x, ctx):
         from bionumpy.datatypes import Interval
@@ -279,11 +291,25 @@ class Pipelines(Harness):
             win = lambda a, b: StrandedInterval([names[c] for c in skel["chroms"][a:b]], ctx.arr([x[f"s{i}"] for i in range(a, b)], "int64"),
                                                 ctx.arr([x[f"e{i}"] for i in range(a, b)], "int64"),
                                                 EncodedArray(ctx.arr([x[f"st{i}"] for i in range(a, b)], "uint8"), StrandEncoding))
-            track_s = g.get_track(NpDataclassStream((bg(a, b) for a, b in skel["track_chunks"]), BedGraph))
-            win_s = g.get_intervals(NpDataclassStream((win(a, b) for a, b in skel["chunks"]), StrandedInterval), stranded=True)
-            got = compute(track_s[win_s])
+            mk_track = lambda: g.get_track(NpDataclassStream((bg(a, b) for a, b in skel["track_chunks"]), BedGraph))
+            mk_win = lambda: (g.get_intervals(win(0, n), stranded=True) if skel.get("windows_in_memory") else
+                              g.get_intervals(NpDataclassStream((win(a, b) for a, b in skel["chunks"]), StrandedInterval), stranded=True))
+            got = compute(mk_track()[mk_win()])
             mem = g.get_track(bg(0, 2))[g.get_intervals(win(0, n), stranded=True)]
-            return dict(streamed=[ctx.lst(got[i].to_array()) for i in range(n)], memory=[ctx.lst(mem[i].to_array()) for i in range(n)])
+            res = dict(streamed=[ctx.lst(got[i].to_array()) for i in range(n)], memory=[ctx.lst(mem[i].to_array()) for i in range(n)])
+            if skel.get("mean"):
+                sm = compute(mk_track()[mk_win()].mean(axis=0))
+                if hasattr(sm, "starts") and hasattr(sm, "values"):
+                    # run-length result: expanded here run by run (the library's own expansion goes through the bit patterns of the doubles)
+                    vals, st_, en_ = ctx.lst(sm.values), ctx.lst(sm.starts), ctx.lst(sm.ends)
+                    dense = [None] * int(len(sm))
+                    for v_, a_, b_ in zip(vals, st_, en_):
+                        for p_ in range(int(a_), int(b_)):
+                            dense[p_] = v_
+                    res["mean_streamed"] = dense
+                else:
+                    res["mean_streamed"] = ctx.lst(sm)
+            return res
         streamed = GenomicIntervals.from_intervals(NpDataclassStream((mk(a, b) for a, b in skel["chunks"]), Interval), context)
         if skel["what"] == "pileup":
             track = streamed.get_pileup()
@@ -332,6 +358,18 @@ class Pipelines(Harness):
                     # the definition for the two proper strands ('.' carries no direction: only the equality above is required)
                     conj.append(z3.Implies(x[f"st{i}"].t == 0, TI(b[j]) == fwd))
                     conj.append(z3.Implies(x[f"st{i}"].t == 1, TI(b[j]) == rev))
+            if "mean_streamed" in out:
+                # column j: the mean over the windows that HAVE a column j (the in-memory definition of a mean over ragged rows)
+                from symnp.core import T
+                rows_ = out["memory"]
+                W = max(len(r_) for r_ in rows_)
+                if len(out["mean_streamed"]) != W:
+                    return False
+                for j in range(W):
+                    col = [TI(r_[j]) for r_ in rows_ if len(r_) > j]
+                    g_ = T(out["mean_streamed"][j])
+                    g_ = z3.ToReal(g_) if not z3.is_real(g_) else g_
+                    conj.append(g_ * len(col) == z3.ToReal(sum(col[1:], col[0])))
             return z_and(conj)
         r = out["records"]
         m = len(r["start"])
@@ -382,6 +420,13 @@ class Pipelines(Harness):
                 exp = dense[nm][s_:e_] if st == "+" else (dense[nm][s_:e_][::-1] if st == "-" else None)
                 if exp is not None and row != exp:
                     return f"values of the track {dense} under window {(nm, s_, e_, st)}: {row}, expected {exp}"
+            if "mean_streamed" in cout:
+                W = max(len(r_) for r_ in mm)
+                exp = [sum(r_[j] for r_ in mm if len(r_) > j) / sum(1 for r_ in mm if len(r_) > j) for j in range(W)]
+                got = [float(v) for v in cout["mean_streamed"]]
+                if len(got) != W or any(abs(a_ - b_) > 1e-9 for a_, b_ in zip(got, exp)):
+                    return (f"column means of the track {dense} under stranded windows {wins} (rows {mm}): streamed (windows cut {skel['chunks']}) {got}, "
+                            f"mean over the windows that reach each column {exp}")
             return None
         iv = [(names[c], cx[f"s{i}"], cx[f"e{i}"]) for i, c in enumerate(skel["chroms"])]
         r = cout["records"]
